@@ -184,6 +184,10 @@ def m_vec_index(ex, a, t):
     vec = target(a[0]); i = conc(ex, a[1])
     if i >= len(vec.items): raise Panic('index out of bounds')
     return Ref(LCell(vec.items[i]))
+def m_vec_pop(ex, a, t):
+    vec = target(a[0])
+    if not vec.items: return Enum('Option', 'None')
+    return Enum('Option', 'Some', [vec.items.pop().v])
 def m_slice_get(ex, a, t):
     # <[T]>::get(idx) -> Option<&T>
     vec = target(a[0]); i = conc(ex, a[1])
@@ -213,7 +217,7 @@ def m_map_err(ex, a, t):
     if len(f) != 1: raise Unknown('closure ' + clo.ty)
     return Enum('Result', 'Err', [ex.run(f[0], [clo, r.f[0].v])])
 MODELS += [
-    (r'core::slice::<impl \[.*\]>::get::<usize>$', m_slice_get), (r'(?:^|::)Vec::<.*>::len$', m_vec_len), (r'(?:^|::)Vec::<.*>::is_empty$', m_vec_is_empty), (r'(?:^|::)Vec::<.*>::push$', m_vec_push),
+    (r'core::slice::<impl \[.*\]>::get::<usize>$', m_slice_get), (r'(?:^|::)Vec::<.*>::pop$', m_vec_pop), (r'(?:^|::)Vec::<.*>::len$', m_vec_len), (r'(?:^|::)Vec::<.*>::is_empty$', m_vec_is_empty), (r'(?:^|::)Vec::<.*>::push$', m_vec_push),
     (r'^<Vec<.*> as Index<usize>>::index$', m_vec_index), (r'(?:^|::)Vec::<.*>::swap_remove$', m_vec_swap_remove),
     (r'(?:^|::)UnboundedSender::<.*>::send$', m_tx_send), (r'(?:^|::)Result::<.*>::map_err::<', m_map_err),
 ]
@@ -427,6 +431,16 @@ def m_poll_recv(ex, a, t):
     if rx.ch.q: return Enum('Poll', 'Ready', [Enum('Option', 'Some', [rx.ch.q.pop(0)])])
     if not rx.senders_alive or (rx.ch.track and rx.ch.senders == 0) or getattr(rx.ch, 'closed', False): return Enum('Poll', 'Ready', [Enum('Option', 'None')])
     return Enum('Poll', 'Pending')
+def m_poll_recv_many(ex, a, t):
+    # UnboundedReceiver::poll_recv_many(&mut self, cx, buffer: &mut Vec<T>, limit) -> Poll<usize>
+    rx = target(a[0]); buf = target(a[2])
+    lim = conc(ex, a[3]) if z3.is_expr(a[3]) else (int(a[3]) if isinstance(a[3], int) else 1 << 30)      # a constant such as usize::MAX
+    if rx.ch.q:
+        n = min(lim, len(rx.ch.q))
+        for _ in range(n): buf.items.append(Cell(rx.ch.q.pop(0)))
+        return Enum('Poll', 'Ready', [z3.BitVecVal(n, 64)])
+    if not rx.senders_alive or (rx.ch.track and rx.ch.senders == 0) or getattr(rx.ch, 'closed', False): return Enum('Poll', 'Ready', [z3.BitVecVal(0, 64)])
+    return Enum('Poll', 'Pending')
 def m_rx_close(ex, a, t):
     # UnboundedReceiver::close: further sends fail, what is queued can still be received, then the stream ends
     target(a[0]).ch.closed = True; return UNIT
@@ -455,7 +469,7 @@ MODELS[:0] = [
     (r'^<dyn Service<.*>::poll_ready$', m_dyn_poll_ready), (r'^<dyn Service<.*>::call$', m_dyn_call),
     (r'^<dyn InternalServiceFactory as InternalServiceFactory>::create$', m_dyn_create),
     (r'^<dyn (futures_core::)?Future<.*>::poll$', m_dyn_fut_poll), (r'^Pin::<.*>::as_mut$', m_pin_as_mut), (r'^Pin::<.*>::get_mut$', m_pin_get_mut),
-    (r'UnboundedReceiver::<.*>::poll_recv$', m_poll_recv), (r'UnboundedReceiver::<.*>::close$', m_rx_close), (r'oneshot::Sender::<.*>::send$', m_oneshot_send),
+    (r'UnboundedReceiver::<.*>::poll_recv$', m_poll_recv), (r'UnboundedReceiver::<.*>::close$', m_rx_close), (r'UnboundedReceiver::<.*>::poll_recv_many$', m_poll_recv_many), (r'oneshot::Sender::<.*>::send$', m_oneshot_send),
     (r'actix_rt::time::sleep$', m_sleep), (r'^Box::<.*>::pin$', m_box_pin), (r'^<Sleep as (futures_core::)?Future>::poll$', m_sleep_poll), (r'^Sleep::reset$', m_sleep_reset),
     (r'^Duration::from_secs$', m_dur_secs), (r'Instant::elapsed$', m_elapsed), (r'^<Duration as PartialOrd>::ge$', m_dur_ge),
     (r'^std::mem::take::<WorkerState>$', m_mem_take), (r'Ready::<.*>::into_inner$', m_ready_into_inner),
